@@ -72,12 +72,34 @@ mod private {
     }
 
     /// All laws of C16 for one ordered pair; `deep` also compares every prefix cell.
+    thread_local! {
+        /// When set, classes are drawn per position instead of being tied to the character.
+        pub static FREE_CLASSES: std::cell::Cell<Option<u64>> = std::cell::Cell::new(None);
+    }
+
+    fn classes_for(chars: &[char], salt: u64) -> Vec<CharClass> {
+        match FREE_CLASSES.with(|f| f.get()) {
+            None => chars.iter().map(|c| class_of(*c)).collect(),
+            Some(seed) => chars
+                .iter()
+                .enumerate()
+                .map(|(i, _)| match mix(seed ^ salt, i as u64) % 4 {
+                    0 => CharClass::Vowel,
+                    1 => CharClass::Consonant,
+                    2 => CharClass::NotAlpha,
+                    _ => CharClass::Any,
+                })
+                .collect(),
+        }
+    }
+
     pub fn check_distance(cx: &mut Cx, dl: Option<&DamerauLevenshtein>, c1: &[char], c2: &[char], deep: bool) {
         // `dl`: the long-lived instance whose history matters (None = this thread's shared instance)
         macro_rules! with_dl { ($f:expr) => { match dl { Some(d) => $f(d), None => DL.with(|d| $f(d)) } } }
-        let t1 = classed(c1);
-        let t2 = classed(c2);
-        cx.ctx(format!("C16 {:?} {:?}", s(c1), s(c2)));
+        let (k1, k2) = (classes_for(c1, 1), classes_for(c2, 2));
+        let t1 = word_text(c1, &k1);
+        let t2 = word_text(c2, &k2);
+        cx.ctx(format!("C16 {:?} {:?} classes {:?} {:?}", s(c1), s(c2), k1, k2));
         let d12 = with_dl!(|d: &DamerauLevenshtein| d.distance(&t1.view(0), &t2.view(0)));
         let cells: Vec<Vec<f64>> = if deep {
             with_dl!(|d: &DamerauLevenshtein| {
@@ -125,13 +147,11 @@ mod private {
         }
         if !deep && cells.is_empty() && c1.len().max(c2.len()) > 20 && cx.rng.chance(1, 4) {
             // long words (beyond the initial capacity, after growth): a sample of prefix cells
-            let k1: Vec<CharClass> = c1.iter().map(|c| class_of(*c)).collect();
-            let k2: Vec<CharClass> = c2.iter().map(|c| class_of(*c)).collect();
             let d_again = with_dl!(|d: &DamerauLevenshtein| d.distance(&t1.view(0), &t2.view(0)));
             if d_again != d12 {
                 errs.push("repeat-differs".into());
             }
-            for _ in 0..12 {
+            for _ in 0..48 {
                 let i = cx.rng.below(c1.len() + 1);
                 let j = cx.rng.below(c2.len() + 1);
                 let cell = with_dl!(|d: &DamerauLevenshtein| d.dists.borrow().get(i + 1, j + 1));
@@ -147,8 +167,6 @@ mod private {
             cx.count("long pairs with sampled prefix cells");
         }
         if deep {
-            let k1: Vec<CharClass> = c1.iter().map(|c| class_of(*c)).collect();
-            let k2: Vec<CharClass> = c2.iter().map(|c| class_of(*c)).collect();
             'cells: for i in 0..=c1.len() {
                 for j in 0..=c2.len() {
                     let p1 = word_text(&c1[..i], &k1[..i]);
@@ -331,7 +349,7 @@ impl Prims {
     fn index_case(&self, cx: &mut Cx, lang: &'static str) {
         let words = [
             "metal", "mettle", "mailbox", "me", "m", "yellow", "shirt", "t", "wi", "fi", "the", "für", "ёлка", "a", "aa", "aaa", "aaaa", "abab", "baba", "", "ab",
-            "straße", "œuvre", "t-shirt", "aab", "b",
+            "straße", "œuvre", "t-shirt", "aab", "b", "𝐀𝐁𝐂", "😀😀", "𝐀b", "a\u{0}b",
         ];
         let n = match cx.rng.below(40) {
             0 => *cx.rng.pick(&[1023, 1024, 1025, 4096, 5000, 8200, 9000, 66000]),
@@ -362,7 +380,7 @@ impl Prims {
                 2 => gen::any_word(&mut cx.rng, lang),
                 _ => cx.rng.pick(&words).chars().take(cx.rng.range(1, 2)).collect(),
             };
-            let size = if cx.rng.chance(1, 5) { *cx.rng.pick(&[6, 7, 8, 10, 13, 26, 50]) } else { cx.rng.below(6) };
+            let size = if cx.rng.chance(1, 5) { *cx.rng.pick(&[6, 7, 8, 10, 13, 26, 50, 100, 1000, 6554]) } else { cx.rng.below(6) };
             let q = if cx.rng.chance(1, 12) {
                 // a query of 21-30 words (beyond the 20-slot buffers), many distinct grams
                 (0..cx.rng.range(21, 30)).map(|_| if cx.rng.chance(1, 2) { cx.rng.pick(&words).to_string() } else { gen::any_word(&mut cx.rng, lang) }).collect::<Vec<_>>().join(" ")
@@ -370,6 +388,17 @@ impl Prims {
                 q
             };
             self.index_check(cx, lang, &st, &recs.len(), &rgrams, &q, size, &json!(recs));
+            // the same query again with the sizes that put the number of sharing records exactly at / one past the cap
+            let tq = st.tok_query(&q);
+            if !tq.words.is_empty() {
+                let qg = oracle::grams_of(&tq);
+                let sharing = rgrams.iter().filter(|g| !g.is_disjoint(&qg)).count();
+                if sharing >= 10 {
+                    for sz in [sharing / 10, (sharing - 1) / 10].iter() {
+                        self.index_check(cx, lang, &st, &recs.len(), &rgrams, &q, *sz, &json!(recs));
+                    }
+                }
+            }
         }
     }
 
@@ -457,6 +486,9 @@ impl Prims {
         }
         if sharing > 0 {
             cx.key(hparts(&[lang, &store_desc.to_string(), q, &size.to_string()]));
+        }
+        if sharing == 10 * size + 1 || sharing == 10 * size {
+            cx.count("calls at the boundary between 'all listed' and 'capped'");
         }
         if size == 0 {
             cx.count("size 0");
@@ -583,9 +615,9 @@ impl Prop for Prims {
     }
     fn floors(&self) -> Vec<(&'static str, u64, u64)> {
         match self.0 {
-            Which::Distance => vec![("exhaustive pairs", 100000, 2000000), ("prefix cells compared", 1000000, 20000000), ("pairs where a discount lowered the distance", 10000, 100000), ("random pairs beyond capacity 20", 500, 5000), ("long pairs with sampled prefix cells", 200, 2000), ("hook matrix growths", 3, 3), ("hook matrix max size", 50, 50)],
+            Which::Distance => vec![("exhaustive pairs", 100000, 2000000), ("prefix cells compared", 1000000, 20000000), ("pairs where a discount lowered the distance", 10000, 100000), ("random pairs beyond capacity 20", 500, 5000), ("long pairs with sampled prefix cells", 200, 2000), ("random cases with per-position character classes", 2000, 20000), ("hook matrix growths", 3, 3), ("hook matrix max size", 50, 50)],
             Which::Jaccard => vec![("exhaustive pairs", 100000, 1500000), ("pairs with partial overlap", 20000, 200000), ("pairs beyond the initial capacity of 20", 500, 5000), ("random cases over a wide alphabet", 1000, 10000), ("hook jaccard accesses", 100000, 1000000)],
-            Which::Index => vec![("prepare calls", 5000, 50000), ("capped calls", 500, 5000), ("calls with ties at the cut", 100, 1000), ("size 0", 300, 3000), ("corpus prepare calls", 200, 2000), ("stores of 1023-5000 records", 50, 500), ("queries with more than 255 distinct grams", 300, 15000)],
+            Which::Index => vec![("prepare calls", 5000, 50000), ("capped calls", 500, 5000), ("calls with ties at the cut", 100, 1000), ("size 0", 300, 3000), ("corpus prepare calls", 200, 2000), ("stores of 1023-5000 records", 50, 500), ("queries with more than 255 distinct grams", 300, 15000), ("calls at the boundary between 'all listed' and 'capped'", 300, 15000)],
             Which::Unchecked => vec![("direct distance/similarity calls", 20000, 200000), ("direct calls beyond capacity 20", 5000, 50000), ("store-level searches", 5000, 50000), ("store-level rounds with 127-1500 records", 200, 2000), ("store-level rounds with clear and re-add", 500, 5000), ("type-ahead sequences with adds in between", 1000, 10000), ("direct call sequences with words of 76-420 letters", 200, 2000), ("direct call sequences with arithmetic length relations", 300, 3000), ("store-level queries of 65-200 words", 300, 3000), ("jaccard calls on sets of 256-70000 distinct elements", 20, 200), ("hook matrix accesses", 1000000, 10000000), ("hook matrix growths", 3, 3), ("hook matrix max size", 50, 50), ("hook counter accesses", 10000, 100000), ("hook cost accesses", 100000, 1000000), ("hook jaccard accesses", 10000, 100000)],
         }
     }
@@ -614,6 +646,13 @@ impl Prop for Prims {
                 if own.is_some() {
                     cx.count("random cases on an instance of their own");
                 }
+                // one case in five assigns character classes per position (the same letter may be a vowel in
+                // one word and unclassified in the other, as with words tokenised under different languages)
+                let free = cx.rng.chance(1, 5);
+                private::FREE_CLASSES.with(|f| f.set(if free { Some(cx.rng.next()) } else { None }));
+                if free {
+                    cx.count("random cases with per-position character classes");
+                }
                 let miri = cx.tier == Tier::Miri;
                 for step in 0..(if miri { 2 } else { 6 }) {
                     let k = cx.rng.range(2, alpha.len());
@@ -639,6 +678,7 @@ impl Prop for Prims {
                         cx.count("random pairs beyond capacity 20");
                     }
                 }
+                private::FREE_CLASSES.with(|f| f.set(None));
             }
             #[cfg(lucid_suggest_verif)]
             (Which::Jaccard, "exhaustive") => {
@@ -671,7 +711,8 @@ impl Prop for Prims {
                 for step in 0..(if cx.tier == Tier::Miri { 3 } else { 8 }) {
                     let k = cx.rng.range(1, alpha.len());
                     let long = (step + idx as usize) % 2 == 0;
-                    let top = if wide { 400 } else { 60 };
+                    let top = if wide { 1200 } else { 60 };
+                    let k = if wide && cx.rng.chance(1, 3) { (*cx.rng.pick(&[63usize, 64, 65, 127, 128, 129, 255, 256, 257])).min(alpha.len()) } else { k };
                     let n1 = if long { cx.rng.range(20, top) } else { cx.rng.below(7) };
                     let n2 = if cx.rng.chance(1, 2) { cx.rng.range(20, top) } else { cx.rng.below(7) };
                     let s1: Vec<char> = (0..n1).map(|_| alpha[cx.rng.below(k)]).collect();
